@@ -16,12 +16,14 @@ def obligations(tier):
     for n in NAMES:
         f = (CLS[n] + ".write", "copy.deepcopy", "merge_concurrent_captions", "BaseWriter._relativize_and_fit_to_screen")
         obs.append(ch(f"unchanged_{n}", "harness.C09_writers", timeout=T, functions=f, exhaustive=True,
-                      bounds="2 languages, captions with identical timespans, document styles incl. text-align; selectors: video size given or not (RelativizationError path), layouts none / relative at every level / absolute, 3 caption styles, balanced or unclosed italics"))
+                      bounds="2 languages, captions with identical timespans, document styles incl. text-align; selectors: video size given or not (RelativizationError path), relativize and fit_to_screen on/off, layouts none / relative with padding at every level / absolute, 2 caption styles, balanced or unclosed italics"))
         obs.append(ch(f"deterministic_{n}", "harness.C09_writers", timeout=T, functions=f, exhaustive=True,
-                      bounds="same writer twice, fresh writer, writer that wrote another set (with an unclosed span, 2 languages) before; selectors: caption layout, caption style, no/balanced/unclosed italics, identical timespans"))
+                      bounds="same writer twice, fresh writer, writer that wrote another set (same class name with other rules, unclosed span, 2 languages) before; selectors: caption layout, caption style, no/balanced/unclosed italics, identical timespans"))
         if not q:
             obs.append(ch(f"unchanged_full_{n}", "harness.C09_writers", timeout=T, functions=f, exhaustive=True,
                           bounds="648 selector combinations (layout kinds per level, styles, document styles, identical timespans, italics)"))
+    obs.append(ch("hashseed_dfxp", "harness.C09_writers", timeout=T, functions=("pycaption.dfxp.base (every set display / comprehension / set() call rewritten to NondetSet)", "DFXPWriter.write", "RegionCreator"),
+                  bounds="an arbitrary iteration order (2 solver-chosen picks) against insertion order for every set the DFXP module creates; captions whose nodes carry layouts out of 3 kinds each (styled and plain nodes), 2 languages"))
     return obs
 
 
@@ -29,7 +31,7 @@ ASSUME = [
     "every input is a finite structure choice; CrossHair's path search walks all of them and the solver certifies completeness",
     "DFXP writers assemble their document on the contract stub of bs4 (harness/fakesoup.py); lxml tree building does not terminate under CrossHair tracing; the SAMI writer runs on the real bs4. Counterexamples of the determinism obligations are replayed on the real bs4 through the public API",
     "the name hash inside pycaption.geometry is bound to a deterministic function of the value (CrossHair models hash() as arbitrary); hash consistency itself is C18",
-    "another OS process / hash seed: pycaption's writers do not iterate over sets (membership tests only); not modelled beyond that",
+    "another process / hash seed = another iteration order of sets: the DFXP module (the only writer module that creates sets; counted on every run) is re-executed with every set replaced by NondetSet and written twice under two solver-chosen orders (self-composition); modules without any set site cannot depend on set order",
 ]
 
 if __name__ == "__main__":
